@@ -209,6 +209,18 @@ def build_file(case: dict):
         values = np.arange(256, dtype=np.uint8).reshape(n, c)
     else:
         values = make_values(coding, n, c, case["seed"], "%d:%d:%s" % (c, n, coding))
+    if case.get("magic_at") is not None:
+        # "decodes to exactly the stored samples", whatever they are: the four bytes 'ajkg' (legal mu-law / A-law codes, legal PCM
+        # samples) stored at byte offset magic_at of the data section (not at its start: that would be a shorten stream)
+        o = int(case["magic_at"])
+        w = sample_width(coding)
+        if o > 0 and o % w == 0 and o + 4 <= n * c * w:
+            flat = values.reshape(-1).copy()
+            if w == 1:
+                flat[o:o + 4] = np.frombuffer(b"ajkg", dtype=np.uint8)
+            else:
+                flat[o // 2:o // 2 + 2] = np.frombuffer(b"ajkg", dtype="<i2" if coding == "pcm01" else ">i2").astype(np.int16)
+            values = flat.reshape(values.shape)
     body = data_bytes(values, coding)
     cut = case.get("cut_bytes", 0)
     assert 0 <= cut <= len(body)
@@ -411,6 +423,15 @@ def enumerate_cases(tier: str, seed: int):
             for hdr in (1024, 2048):
                 for dtype in (None, "uint8"):
                     yield dict(kind="plain", c=c, n=(7, 300)[c % 2], coding=coding, hdr=hdr, seed=seed, via=("bytes", "path")[c % 2], dtype=dtype, no_sbf=True)
+    # 1a'. data whose bytes at the start of a LATER 16 KiB read are the shorten magic (only the start of the data section decides
+    # whether a file is shorten-compressed)
+    for coding in CODINGS:
+        for c in (1, 3, 2):
+            w = sample_width(coding)
+            per = max(1, BLOCK // (c * w)) * c * w  # bytes per read of copy_samples
+            for mult in (1, 2):
+                n = (mult * per) // (c * w) + 50
+                yield dict(kind="plain", c=c, n=n, coding=coding, hdr=1024, seed=seed, via=("bytes", "path")[mult % 2], dtype=None, magic_at=mult * per)
     # 1b. headers whose field list (not just the padding) runs past byte 1024
     i = 0
     rng_l = _common.make_rng(seed, "c12long")
